@@ -28,7 +28,21 @@ fn case_on<M: aranya_runtime::linear::IoManager>(cs: u64, unsafe_finalize: bool,
         cfg.n = rng.urange(5, 40);
     }
     let shape = cfg.shape;
-    let mut model = DagGen::new(cfg, &mut rng).build();
+    let mut degenerate = false;
+    let mut model = {
+        let mut g = DagGen::new(cfg, &mut rng);
+        g.fill();
+        if unsafe_finalize && args.get("degenerate").is_some() && g.rng.chance(1, 4) {
+            // Exploratory, off by default (`--set degenerate=1`): merges with one parent an
+            // ancestor of the other, as a peer may send them. The unchanged runtime accepts them,
+            // trips a debug assertion while braiding and applies commands twice (DESIGN.md 8);
+            // the reference model's applied-set oracle is not defined for them either.
+            for _ in 0..g.rng.urange(1, 2) {
+                degenerate |= g.degenerate_merge_gadget();
+            }
+        }
+        g.build_as_is()
+    };
     if unsafe_finalize && rng.bool() {
         // Also end the DAG with an explicit merge command over two parallel finalize branches,
         // so the error is exercised through add_commands(merge) and not only through commit.
@@ -165,6 +179,12 @@ fn case_on<M: aranya_runtime::linear::IoManager>(cs: u64, unsafe_finalize: bool,
             m.seen("shapes", &format!("{shape:?}"));
             if any_pf {
                 m.count("cases_with_parallel_finalize", 1);
+            }
+            if degenerate {
+                m.count("cases_with_a_merge_of_comparable_parents", 1);
+                if any_pf {
+                    m.count("parallel_finalize_cases_with_a_merge_of_comparable_parents", 1);
+                }
             }
             m.sample(|| json!({"mode": case["mode"], "case_seed": case["case_seed"], "nodes": model.len(), "merges": merges, "finalize": fins, "final_heads": final_heads, "shape": format!("{shape:?}"), "dag_head": model.dag.nodes.iter().take(6).map(|n| json!({"id": short(&n.id), "par": format!("{:?}", n.par), "prio": format!("{:?}", n.prio), "ops": n.script.ops.len()})).collect::<Vec<_>>()}));
         }
